@@ -2,11 +2,12 @@
 # tools/seed_run.sh <seeded dir> [tier]  — run the property's check against the seeded change without touching /repo
 # (a scratch copy of the package shadows the installed one via PYTHONPATH); prints DETECTED / MISSED.
 set -u
+ROOT=$(cd "$(dirname "$0")/.." && pwd)   # /verif, or a `vp run` snapshot of it
 D=$(realpath ${1%/}); TIER=${2:-quick}; PID=$(python3 -c "import json;print(json.load(open('$D/meta.json'))['property'])")
 T=$(mktemp -d /tmp/seedrun_XXXX); mkdir -p $T/r; cp -r /repo/note_seq $T/r/; (cd $T/r && git init -q . 2>/dev/null; git apply --unsafe-paths --directory=$T/r $D/patch.diff 2>/dev/null || patch -s -p1 -d $T/r < $D/patch.diff) 
-OUT=$(cd /verif && PYTHONPATH=$T/r timeout 3000 ./check $PID $TIER 2>&1 | grep -E "VIOLATION|KNOWN|MACHINERY" | head -3); RC=$?
+OUT=$(cd $ROOT && PYTHONPATH=$T/r timeout 3000 ./check $PID $TIER 2>&1 | grep -E "VIOLATION|KNOWN|MACHINERY" | head -3); RC=$?
 rm -rf $T
 # restore generated files / build state for the clean tree
-(cd /verif && ./check $PID quick >/dev/null 2>&1); CLEAN=$?
+(cd $ROOT && ./check $PID quick >/dev/null 2>&1); CLEAN=$?
 if echo "$OUT" | grep -q "VIOLATION"; then echo "DETECTED $D ($TIER): $OUT"; else echo "MISSED $D ($TIER): $OUT"; fi
 echo "clean-tree rc after: $CLEAN"
